@@ -1466,7 +1466,15 @@ def expandTableFile(Eups, ofd, ifd, productList, versionRegexp=None, force=False
                 if not optional:
                     if not force:
                         raise
-                continue
+                #
+                # We're not complaining, but productName itself is setup and so are (some of) its dependencies;
+                # they still belong in the exact block.  This happens when a product below productName was
+                # setup without its dependencies (setup -j)
+                #
+                try:
+                    NVOL += eups.getDependencies(productName, version, Eups, setup=True, shouldRaise=False)
+                except Exception:
+                    pass
 
         for name, version, opt, level in NVOL:
             if re.search("^" + Product.LocalVersionPrefix, version):
